@@ -22,203 +22,25 @@ EXPLANATION = (
 ASSUMPTIONS = ["Skia transforms points correctly; shape->path geometry is C09; rendering equality is not decided"]
 P = "C02"
 
-# function -> list of (regex over the def-use-resolved operand text) in application order, with the reason
-SITES = {
-    ("svg", "_element_transform"): ([r"fromstring\(p0\.attrib\.get\(", r"^p1$"],
-                                   "the element's own transform applies first, then the accumulated parent transform"),
-    ("svg", "SVG._resolve_use"): ([r"\.translate\(float\(\w+\.attrib\.get\('x'", r"fromstring\(\w+\.attrib\['transform'\]\)"],
-                                  "SVG 1.1 5.6: translate(x,y) is appended to (i.e. applied before) the use element's transform"),
-    ("svg", "SVG._unnest_svg"): ([r"rect_to_rect\(|\.translate\(", r"fromstring\(p0\.attrib\['transform'\]\)"],
-                                 "the viewBox->viewport mapping applies first, then the svg element's transform attribute"),
-    ("svg", "_inherit_matrix_multiply"): ([r"fromstring\(p1\.attrib\[p2\]\)", r"fromstring\(p0\[p2\]\)|identity\(\)"],
-                                         "child transform applies first, then the inherited (parent) transform"),
-}
-
-
 def run(repo: Repo, rep: Report):
-    svg = repo["svg"]
-    st = repo["svg_types"]
+    from sa.rules import c11, groups, sem, sempath
     for rid, txt in [
-        ("R-SITE.compose-order", "operand order at every affine composition site of the flattening code"),
-        ("R-ORDER.must-transform", "every emitted piece is mapped through the accumulated transform unless it is the identity"),
-        ("R-SITE.document-order", "replacement/swap/stroke-split keep document (z) order"),
-        ("R-SITE.viewport", "nested svg viewport parameters, fallbacks and recursion extent"),
-        ("R-SITE.traversal", "child context is derived from the parent context; use attributes are carried over"),
+        ("R-SITE.compose-order", "accumulated transforms (own first, then the ancestors') in the traversal contexts of a schematic document; instances of <use> render under translate(x,y) then the use's transform then the context"),
+        ("R-ORDER.must-transform", "_simplify interpreted on schematic documents: every emitted piece (fill and stroke, clipped or not) is mapped through its accumulated transform; apply_transform hands the six components to the engine in order"),
+        ("R-SITE.document-order", "replacement / swap helpers and _simplify keep document (z) order; the stroke piece follows the fill piece"),
+        ("R-SITE.viewport", "resolve_nested_svgs interpreted on a schematic document: render list equals the SVG viewport model (mapping, default size, overflow clip, inheritance, order)"),
+        ("R-SITE.traversal", "depth/breadth-first traversal visits elements in document order with the contexts of the reference walk; resolve_use instantiates every use once per reference"),
     ]:
         rep.rule(rid, txt)
     # ---- the algebra the composition sites rely on (shared with C11): product, elementary operations, compose_ltr, parser
-    from sa.rules import c11
     rep.rule("R-POLY", "Affine2D product / elementary operations / compose_ltr / transform-list parser equal the SVG matrices (rules of C11)")
     c11.run(repo, rep, only=("algebra", "parser"))
-    # ---- composition sites
-    n_sites = 0
-    for mod in repo.modules.values():
-        for q, fn in mod.functions.items():
-            if "<locals>" in q:
-                continue
-            for c in calls_named(fn, "compose_ltr", nested=False):
-                ops = compose_operands(c)
-                if ops is None:
-                    continue
-                n_sites += 1
-                key = (mod.name, q)
-                if key in SITES:
-                    pats, why = SITES[key]
-                    texts = [rtext(fn, o) for o in ops]
-                    site = f"{mod.name}.{q}: compose_ltr(({', '.join(unparse(o)[:30] for o in ops)}))"
-                    if len(texts) == len(pats) and all(re.search(p, t) for p, t in zip(pats, texts)):
-                        rep.ok("R-SITE.compose-order", site, why, True)
-                    elif len(texts) == len(pats) and all(re.search(p, t) for p, t in zip(pats, reversed(texts))):
-                        rep.fail("R-SITE.compose-order", f"{mod.name}.{q}", c, f"operands are composed in the reverse order: {why}", mod, c)
-                    else:
-                        rep.fail("R-SITE.compose-order", f"{mod.name}.{q}", c, f"operands {texts} do not have the provenance this site needs: {why}", mod, c)
-    rep.floor("compose_ltr call sites in the package", n_sites, 12)
-    for key in SITES:
-        fn = repo[key[0]].func(key[1])
-        rep.saw(f"{key[0]}.{key[1]}")
-        if not any(compose_operands(c) for c in calls_named(fn, "compose_ltr", nested=False)):
-            # a rewrite with `@` is equivalent when the operands are swapped: b @ a == compose_ltr((a, b))
-            mm = [n for n in walk_no_nested(fn) if isinstance(n, ast.BinOp) and isinstance(n.op, ast.MatMult)]
-            pats, why = SITES[key]
-            ok = any(re.search(pats[0], rtext(fn, n.right)) and re.search(pats[1], rtext(fn, n.left)) for n in mm)
-            if ok:
-                rep.ok("R-SITE.compose-order", f"{key[0]}.{key[1]}: matrix product form", why, True)
-            else:
-                rep.fail("R-SITE.compose-order", f"{key[0]}.{key[1]}", "Affine2D.compose_ltr((...))", f"composition site vanished or changed form: {why}", repo[key[0]], fn)
-    # _element_transform: raw taken from gradientTransform for gradients, transform otherwise; no-attribute => context unchanged
-    et = svg.func("_element_transform")
-    t = unparse(et)
-    if "return p1" not in t and "return current_transform" in t and "attr_name = 'gradientTransform'" in t and "_is_gradient(el.tag)" in t:
-        rep.ok("R-SITE.compose-order", "svg._element_transform: absent attribute returns the context transform unchanged")
-    else:
-        rep.fail("R-SITE.compose-order", "svg._element_transform", "return current_transform", "an element without transform no longer inherits the context transform unchanged", svg, et)
-
-    # ---- must-transform in _simplify
-    fn = svg.func("SVG._simplify")
-    F = "svg.SVG._simplify"
-    rep.saw(F)
-    shape_if = [n for n in ast.walk(fn) if isinstance(n, ast.If) and unparse(n.test) == "_is_shape(el.tag)"]
-    if not shape_if:
-        raise AnalysisError("_simplify: shape branch not found")
-    sb = shape_if[0].body
-    tr_ifs = [s for s in sb if isinstance(s, ast.If) and unparse(s.test) in ("context.transform != Affine2D.identity()", "context.transform != Affine2D.identity()")]
-    ok = False
-    for s in tr_ifs:
-        bt = unparse(s)
-        if re.search(r"paths = \[\w+\.apply_transform\(context\.transform\) for \w+ in paths\]", bt) and not s.orelse:
-            ok = True
-    if ok:
-        rep.ok("R-ORDER.must-transform", f"{F}: paths = [p.apply_transform(context.transform) ...] guarded only by `!= identity`", "top-level statement of the shape branch, all pieces mapped", True)
-    else:
-        rep.fail("R-ORDER.must-transform", F, "if context.transform != Affine2D.identity(): paths = [p.apply_transform(context.transform) for p in paths]",
-                 "emitted pieces are no longer all mapped through the accumulated transform (or the mapping became conditional on something else)", svg, shape_if[0])
-    # nothing between entry of shape branch and replace may `continue`/return around it except the documented ones
-    for s in sb:
-        for n in ast.walk(s):
-            if isinstance(n, (ast.Continue, ast.Return)) and s not in tr_ifs:
-                rep.fail("R-ORDER.must-transform", F, n, "early exit inside the shape branch can bypass the transform of the emitted pieces", svg, n)
-    ap = st.func("SVGShape.apply_transform")
-    t = unparse(ap)
-    if "svg_pathops.transform(self.as_cmd_seq(), transform)" in t and "if not transform.is_degenerate()" in t and "target.update_path(cmds, inplace=True)" in t:
-        rep.ok("R-ORDER.must-transform", "svg_types.SVGShape.apply_transform: commands mapped through Skia with the given affine (degenerate -> M0,0)")
-    else:
-        rep.fail("R-ORDER.must-transform", "svg_types.SVGShape.apply_transform", "cmds = svg_pathops.transform(self.as_cmd_seq(), transform)",
-                 "apply_transform no longer maps the shape's command sequence with the affine it was given", st, ap)
-    pt = repo["svg_pathops"].func("transform")
-    if ".transform(*affine)" in unparse(pt):
-        rep.ok("R-ORDER.must-transform", "svg_pathops.transform: skia_path(...).transform(*affine)")
-    else:
-        rep.fail("R-ORDER.must-transform", "svg_pathops.transform", "sk_path.transform(*affine)", "the six affine components are no longer passed to Skia in a b c d e f order", repo["svg_pathops"], pt)
-
-    # ---- document order
-    from sa.rules import groups
+    sem.check_traverse(repo, rep, {"ctm": "R-SITE.compose-order", "order": "R-SITE.traversal", "paths": "R-SITE.traversal"})
+    sem.check_resolve_use(repo, rep, {"render": "R-SITE.compose-order", "gone": "R-SITE.traversal"})
+    sem.check_nested_svg(repo, rep, "R-SITE.viewport")
+    sem.check_simplify(repo, rep, {"transform": "R-ORDER.must-transform", "document-order": "R-SITE.document-order"})
+    sempath.check_apply_transform(repo, rep, "R-ORDER.must-transform")
     groups.check_replace_and_swap(repo, rep, "R-SITE.document-order")
-    sk = svg.func("SVG._stroke")
-    rets = [unparse(r.value) for r in walk_no_nested(sk) if isinstance(r, ast.Return) and r.value is not None]
-    if "(shape, stroke)" in rets and all(r in ("(shape, stroke)", "(stroke,)") for r in rets):
-        rep.ok("R-SITE.document-order", "svg.SVG._stroke: returns (fill piece, stroke piece): the stroke is painted above the fill")
-    else:
-        rep.fail("R-SITE.document-order", "svg.SVG._stroke", "return (shape, stroke)", f"stroke split returns {rets}: the stroke piece must follow the fill piece", svg, sk)
-
-    # ---- viewport
-    un = svg.func("SVG._unnest_svg")
-    F = "svg.SVG._unnest_svg"
-    rep.saw(F)
-    t = unparse(un)
-    needs = [
-        ("x = float(svg.attrib.get('x', 0))", "x read from the nested element, default 0"),
-        ("y = float(svg.attrib.get('y', 0))", "y read from the nested element, default 0"),
-        ("width = float(svg.attrib.get('width', parent_width))", "width falls back to the parent's extent"),
-        ("height = float(svg.attrib.get('height', parent_height))", "height falls back to the parent's extent"),
-        ("viewbox = parse_view_box(svg.attrib['viewBox'])", "viewBox read from the nested element"),
-        ("svg.attrib.get('preserveAspectRatio', 'xMidYMid')", "preserveAspectRatio default xMidYMid (meet)"),
-        ("Affine2D.rect_to_rect(viewbox, viewport, preserve_aspect_ratio)", "viewBox (source) mapped onto the viewport (destination)"),
-        ("Affine2D.identity().translate(x, y)", "without viewBox the content is only translated to (x, y)"),
-        ("svg.attrib.get('overflow', 'hidden')", "overflow default hidden"),
-        ("viewport = viewbox = Rect(x, y, width, height)", "viewport rectangle is (x, y, width, height)"),
-    ]
-    for needle, what in needs:
-        if needle in t:
-            rep.ok("R-SITE.viewport", f"{F}: {what}")
-        else:
-            rep.fail("R-SITE.viewport", F, needle, f"missing/changed: {what}", svg, un)
-    rec = [c for c in ast.walk(un) if isinstance(c, ast.Call) and call_name(c) == "self._unnest_svg"]
-    if rec and [unparse(a) for a in rec[0].args[1:]] == ["viewbox.w", "viewbox.h"]:
-        rep.ok("R-SITE.viewport", f"{F}: nested levels resolve their default size against this element's viewBox extent", "", True)
-    else:
-        got = [unparse(a) for a in rec[0].args[1:]] if rec else None
-        rep.fail("R-SITE.viewport", F, "self._unnest_svg(el, viewbox.w, viewbox.h)",
-                 f"the recursive call passes {got} as the parent extent: a nested svg without width/height must default to 100% of the "
-                 "enclosing viewBox (user-space) extent, not of the viewport size", svg, rec[0] if rec else un)
-    top = svg.func("SVG.resolve_nested_svgs")
-    tt = unparse(top)
-    if "self._unnest_svg(el, vb.w, vb.h)" in tt and "vb = self.view_box()" in tt:
-        rep.ok("R-SITE.viewport", "svg.SVG.resolve_nested_svgs: top level resolves against the root view box")
-    else:
-        rep.fail("R-SITE.viewport", "svg.SVG.resolve_nested_svgs", "self._unnest_svg(el, vb.w, vb.h)", "top-level nested svgs no longer resolve against the root view box extent", svg, top)
-    # clip for overflow hidden is the viewport rectangle
-    if "to_element(SVGRect(x=x, y=y, width=width, height=height))" in t and "if overflow == 'visible':" in t:
-        rep.ok("R-SITE.viewport", f"{F}: overflow hidden clips to the viewport rectangle; visible does not clip")
-    else:
-        rep.fail("R-SITE.viewport", F, "SVGRect(x=x, y=y, width=width, height=height)", "the overflow clip is no longer the viewport rectangle", svg, un)
-
-    # ---- traversal
-    tr = svg.func("SVG._traverse")
-    F = "svg.SVG._traverse"
-    t = unparse(tr)
-    needs = [
-        ("transform = _element_transform(child, context.transform)", "child CTM = own transform then the parent's CTM"),
-        ("clips = context.clips", "child starts from the parent's clip stack"),
-        ("_attrib_to_pass_on(context.attrib, child)", "child attributes inherit from the parent context"),
-        ("Affine2D.identity()", "root context starts from the identity"),
-    ]
-    for needle, what in needs:
-        if needle in t:
-            rep.ok("R-SITE.traversal", f"{F}: {what}")
-        else:
-            rep.fail("R-SITE.traversal", F, needle, f"missing/changed: {what}", svg, tr)
-    ctxs = [c for c in ast.walk(tr) if isinstance(c, ast.Call) and call_name(c) == "SVGTraverseContext"]
-    child_ctx = [c for c in ctxs if enclosing(c, (ast.For,)) is not None]
-    if child_ctx and [unparse(a) for a in child_ctx[0].args[:5]] == ["nth_of_type", "child", "path", "transform", "clips"]:
-        rep.ok("R-SITE.traversal", f"{F}: child context carries the child's own transform and clip stack", "", True)
-    else:
-        rep.fail("R-SITE.traversal", F, "SVGTraverseContext(nth_of_type, child, path, transform, clips, ...)", "the child context is not built from the child's transform/clips", svg, tr)
-    ru = svg.func("SVG._resolve_use")
-    t = unparse(ru)
-    structural = {"'x'", "'y'", "'width'", "'height'", "'transform'", "_xlink_href_attr_name()"}
-    sets = [n for n in walk_no_nested(ru) if isinstance(n, ast.Assign) and unparse(n.targets[0]) == "attrib_not_copied" and isinstance(n.value, ast.Set)]
-    if sets and {unparse(e) for e in sets[0].value.elts} == structural and "group.attrib[attr_name] = use_el.attrib[attr_name]" in t:
-        rep.ok("R-SITE.traversal", "svg.SVG._resolve_use: every attribute of the use except the six structural ones is carried to the wrapper group")
-    else:
-        rep.fail("R-SITE.traversal", "svg.SVG._resolve_use", "attrib_not_copied = {x, y, width, height, transform, href}", "the set of use attributes not copied to the instance changed", svg, ru)
-    if "new_el = copy.deepcopy(target)" in t and "group.append(new_el)" in t and "old_el.getparent().replace(old_el, new_el)" in t:
-        rep.ok("R-SITE.traversal", "svg.SVG._resolve_use: one deep copy of the target per use, replacing the use in place")
-    else:
-        rep.fail("R-SITE.traversal", "svg.SVG._resolve_use", "new_el = copy.deepcopy(target); parent.replace(use, instance)", "instancing no longer copies the target once per use in place of the use", svg, ru)
-    if "if affine != Affine2D.identity():" in t and "group.attrib['transform'] = affine.tostring()" in t:
-        rep.ok("R-SITE.traversal", "svg.SVG._resolve_use: wrapper group carries the composed use transform")
-    else:
-        rep.fail("R-SITE.traversal", "svg.SVG._resolve_use", "group.attrib['transform'] = affine.tostring()", "the use offset/transform is not written to the wrapper group", svg, ru)
 
 
 _S = "svg"
@@ -227,20 +49,20 @@ VARIANTS = [
                                                         "                            Affine2D.fromstring(use_el.attrib[\"transform\"]),\n                            affine,\n")],
             [("R-SITE.compose-order", "_resolve_use")]),
     Variant("operands swapped in _element_transform", [Edit(_S, "_element_transform", "(Affine2D.fromstring(raw), current_transform)", "(current_transform, Affine2D.fromstring(raw))")],
-            [("R-SITE.compose-order", "_element_transform")]),
+            [("R-SITE.compose-order", "_traverse")]),
     Variant("_swap_elements drops reversed", [Edit(_S, "SVG._swap_elements", "for new_el in reversed(new_els):", "for new_el in new_els:")], [("R-SITE.document-order", "_swap_elements")]),
-    Variant("_stroke returns (stroke, shape)", [Edit(_S, "SVG._stroke", "        return (shape, stroke)", "        return (stroke, shape)")], [("R-SITE.document-order", "_stroke")]),
+    Variant("_stroke returns (stroke, shape)", [Edit(_S, "SVG._stroke", "        return (shape, stroke)", "        return (stroke, shape)")], [("R-SITE.document-order", "_simplify")]),
     Variant("nested default size from the viewport", [Edit(_S, "SVG._unnest_svg", "self._unnest_svg(el, viewbox.w, viewbox.h)", "self._unnest_svg(el, width, height)")],
             [("R-SITE.viewport", "_unnest_svg")]),
     Variant("viewport mapped onto viewbox", [Edit(_S, "SVG._unnest_svg", "Affine2D.rect_to_rect(viewbox, viewport, preserve_aspect_ratio)", "Affine2D.rect_to_rect(viewport, viewbox, preserve_aspect_ratio)")],
             [("R-SITE.viewport", "_unnest_svg")]),
-    Variant("child CTM from identity", [Edit(_S, "SVG._traverse", "_element_transform(child, context.transform)", "_element_transform(child)")], [("R-SITE.traversal", "_traverse")]),
+    Variant("child CTM from identity", [Edit(_S, "SVG._traverse", "_element_transform(child, context.transform)", "_element_transform(child)")], [("R-SITE.compose-order", "_traverse")]),
     Variant("transform only for the first piece", [Edit(_S, "SVG._simplify", "paths = [p.apply_transform(context.transform) for p in paths]", "paths[0] = paths[0].apply_transform(context.transform)")],
             [("R-ORDER.must-transform", "_simplify")]),
     Variant("inherit matrix parent first", [Edit(_S, "_inherit_matrix_multiply", "(Affine2D.fromstring(child.attrib[attr_name]), transform)", "(transform, Affine2D.fromstring(child.attrib[attr_name]))")],
-            [("R-SITE.compose-order", "_inherit_matrix_multiply")]),
+            [("R-SITE.compose-order", "_resolve_use")]),
     Variant("unnest: transform attribute first", [Edit(_S, "SVG._unnest_svg", "(transform, Affine2D.fromstring(svg.attrib[\"transform\"]))", "(Affine2D.fromstring(svg.attrib[\"transform\"]), transform)")],
-            [("R-SITE.compose-order", "_unnest_svg")]),
+            [("R-SITE.viewport", "_unnest_svg")]),
     Variant("silent: compose_ltr((a, b)) rewritten as b @ a", [Edit(_S, "_element_transform", "Affine2D.compose_ltr((Affine2D.fromstring(raw), current_transform))", "current_transform @ Affine2D.fromstring(raw)")], silent=True),
     Variant("silent: local renamed", [Edit(_S, "_element_transform", "raw", "raw_value", count=3)], silent=True),
 ]
